@@ -21,7 +21,9 @@ BOUNDS = {"resolve": "<=3 ranks, <=2 methods per rank"}
 def tasks(tier):
     from contracts import recode_c
 
-    return [dict(name="recode.tail", build=recode_c.t_recode_tail, mode="U")] + _tm.register_unbounded_tasks() + _tm.mtm_missing_tasks(("plain", "coded", "empty")) + _tm.typemap_tasks()[:2] + _tm.mro_unbounded_tasks()[:1] + _tm.resolve_tasks(tier) + _tm.resolve_unbounded_tasks() + _tm.frame_tasks() + _tm.state_tasks() + _tm.wrap_tasks() + _tm.e2e_tasks(["complete"], "quick")[:4]
+    from contracts import callsites_c
+
+    return [dict(name="frames.rebuild", build=callsites_c.task(), mode="F"), dict(name="recode.tail", build=recode_c.t_recode_tail, mode="U")] + _tm.register_unbounded_tasks() + _tm.mtm_missing_tasks(("plain", "coded", "empty")) + _tm.typemap_tasks()[:2] + _tm.mro_unbounded_tasks()[:1] + _tm.resolve_tasks(tier) + _tm.resolve_unbounded_tasks() + _tm.frame_tasks() + _tm.state_tasks() + _tm.wrap_tasks() + _tm.e2e_tasks(["complete"], "quick")[:4]
 
 
 def conformance(tier):
